@@ -31,6 +31,16 @@ PID = "C11"
 LEVEL = "model_checking"
 CRATE = "harness-pub"
 
+# Quirks of the pinned code that the specification models through constants
+# (see the CONSTANTS of PubServer.tla / RepoFiles.tla).  Flip a value when
+# the corresponding repair lands in /repo; the static spec/*.cfg files carry
+# the same values.
+CODE_VARIANT = {
+    "MaxNrEquality": "TRUE",        # rrdp.rs:440  keep == max_nr - 1
+    "TruncateOnCreate": "FALSE",    # file.rs:84-113 no O_TRUNC
+    "RemoveOldFirst": "FALSE",      # rsync.rs:118-131 stale old/ stays
+}
+
 MC_TEMPLATE = """CONSTANTS
   Pubs <- {pubs}
   Uris <- {uris}
@@ -40,9 +50,12 @@ MC_TEMPLATE = """CONSTANTS
   MaxNr = {max_nr}
   MinAge = "{min_age}"
   MaxAge = "{max_age}"
+  MaxNrEquality = {variant[MaxNrEquality]}
   MaxSerial = {max_serial}
   MaxSession = {max_session}
   DeltaChoices <- {deltas}
+  TruncateOnCreate = {variant[TruncateOnCreate]}
+  RemoveOldFirst = {variant[RemoveOldFirst]}
   MaxFaults = {max_faults}
   Depth = {depth}
   FaultOdds = {odds}
@@ -71,9 +84,12 @@ TRACE_TEMPLATE = """CONSTANTS
   MaxNr = {max_nr}
   MinAge = "{min_age}"
   MaxAge = "{max_age}"
+  MaxNrEquality = {variant[MaxNrEquality]}
   MaxSerial = 99
   MaxSession = 99
   DeltaChoices = {{}}
+  TruncateOnCreate = {variant[TruncateOnCreate]}
+  RemoveOldFirst = {variant[RemoveOldFirst]}
   MaxFaults = 9999
 SPECIFICATION TraceSpec
 {invariants}
@@ -94,6 +110,9 @@ PROPERTIES = ["TraceDiskFollowsLogical", "TraceWriteOk",
               "TraceSerialPlusOne", "TraceSessionOnlyOnReset",
               "TraceRsyncEq"]
 
+AGREE = ("FilesAgree", "XmlHeadersAgree", "NotifAgree", "RealRefsExist",
+         "RsyncAgree", "NothingElseOnDisk", "StatsAgree11")
+
 DEFAULT_CFG = {"min_nr": 0, "max_nr": 2, "min_age": "zero", "max_age": "inf"}
 
 
@@ -113,7 +132,7 @@ def trace_cfg(chk, cfg, exclude=()):
         + ".cfg"
     path = os.path.join(chk.out, name)
     if not os.path.exists(path):
-        write_cfg(path, TRACE_TEMPLATE.format(
+        write_cfg(path, TRACE_TEMPLATE.format(variant=CODE_VARIANT, 
             invariants="\n".join(f"INVARIANT {i}" for i in INVARIANTS
                                  if i not in exclude),
             properties="\n".join(f"PROPERTY {p}" for p in PROPERTIES
@@ -127,7 +146,7 @@ def mc_cfg(chk, name, cfg, pubs="PubsOne", uris="UrisOneX", deltas="Deltas1",
     path = os.path.join(chk.out, f"mc_{name}.cfg")
     head = ("INIT MCInit\nNEXT MCNext\nCONSTRAINT RBound" if gen else
             "SPECIFICATION MCSpec\nCONSTRAINT RBound\nVIEW RView")
-    write_cfg(path, MC_TEMPLATE.format(
+    write_cfg(path, MC_TEMPLATE.format(variant=CODE_VARIANT, 
         pubs=pubs, uris=uris, deltas=deltas, max_serial=max_serial,
         max_session=max_session, max_faults=max_faults, depth=depth,
         odds=odds, head=head, checks=checks, **cfg))
@@ -352,6 +371,28 @@ SCENARIOS = {
 }
 
 
+# every row of the merge table of staged elements (rrdp.rs:1890-2012): a
+# second delta before the RRDP update
+SCENARIOS["staged-merge"] = [
+    wr("Init"), {"a": "Add", "p": ["a"]},
+    delta(["a"], P(AX, "c1"), P(AY, "c1")), wr("Update"),
+    # update then update; update then withdraw
+    delta(["a"], U(AX, "c1", "c2"), U(AY, "c1", "c2")),
+    delta(["a"], U(AX, "c2", "c1"), W(AY, "c2")), wr("Update"),
+    # publish then update / publish then withdraw
+    delta(["a"], P(AY, "c2")),
+    delta(["a"], U(AY, "c2", "c1")), wr("Update"),
+    delta(["a"], W(AX, "c1")), delta(["a"], P(AX, "c2")), wr("Update"),
+    # publish then withdraw leaves nothing staged: no update
+    delta(["a"], W(AY, "c1")), delta(["a"], P(AY, "c2")),
+    delta(["a"], W(AY, "c2")), wr("Update"),
+    delta(["a"], P(AY, "c1")), delta(["a"], W(AY, "c1")), wr("Update"),
+    wr("Reset"),
+    delta(["a"], W(AX, "c2")), delta(["a"], P(AX, "c1")),
+    delta(["a"], U(AX, "c1", "c2")), wr("Update"),
+]
+
+
 def is_write(a):
     return a["a"] in ("Init", "Update", "Reset", "Rewrite")
 
@@ -414,6 +455,8 @@ def culprit(rej):
     parts = [str(ev.get("ev"))]
     if ev.get("ev") == "wend":
         parts = [f"{ev.get('of')}:{ev.get('wres')}"]
+    elif ev.get("ev") in ("fs", "fserr", "fsfail"):
+        parts = [f"{ev.get('ev')}:{ev['op'][0]}"]
     # the disk before this write: the previous wend
     wends = [e for e in seg[:line] if e.get("ev") == "wend"]
     # the write that ends at `line` started after the previous wend
@@ -428,6 +471,9 @@ def culprit(rej):
             left.append("empty-old-dir")
         if any(t["objs"] for t in before["rs"]["tmp"]):
             left.append("tmp-dir")
+    # conformance (computed disk # real disk): the component and the write
+    if rej["violated"] in AGREE:
+        return parts[0]
     # the left-over that explains the violated property, if it is there
     relevant = {"ONotificationParsable": "new-notification",
                 "OInterruptedWriteNeverBlocks": "old-dir",
@@ -502,7 +548,7 @@ def run_and_validate(chk, behaviours, tag, exclude=(), revalidate=True):
         flat = [ev for s in segs for ev in s]
         validated, rejections, states = vlib.validate_all(
             "RepoFilesTrace", trace_cfg(chk, cfg, exclude), flat,
-            f"{chk.out}/{tag}", max_rejections=60)
+            f"{chk.out}/{tag}", max_rejections=30)
         chk.cov["traces_validated_against_impl"] += validated
         chk.cov["trace_states"] = chk.cov.get("trace_states", 0) + states
         for rej in rejections:
@@ -594,8 +640,20 @@ def self_test(chk, trace):
 
 # --------------------------------------------------------------------------
 
+def extra_findings(chk):
+    """Test aid: VERIF_EXTRA_FINDINGS=<json file> adds entries in the format
+    of known-findings.json for this run (used to show that a seeded
+    mutation is detected next to findings that are not listed yet)."""
+    path = os.environ.get("VERIF_EXTRA_FINDINGS")
+    if path:
+        with open(path) as f:
+            chk.findings += [x for x in json.load(f).get("findings", [])
+                             if x.get("property") == PID]
+
+
 def run(tier, seed):
     chk = vlib.Check(PID, LEVEL, tier, seed)
+    extra_findings(chk)
     quick = tier == "quick"
     chk.assumptions = [
         "the logical state (WAL store) survives a crash and a cut never "
@@ -641,7 +699,7 @@ def run(tier, seed):
         base = [b for b in cut_behs if b["id"].endswith("-base")]
         rest = [b for b in cut_behs if not b["id"].endswith("-base")]
         chk.rng.shuffle(rest)
-        cut_behs = base + rest[:150]
+        cut_behs = base + rest[:160]
     chk.cov["cut_enumeration"] = {
         "fs_mutations_in_base_scenarios": total_ops,
         "cut_behaviours_executed": len(cut_behs),
@@ -669,7 +727,7 @@ def run(tier, seed):
     generated = []
     for i, (name, cfg) in enumerate(gen_cfgs):
         generated += generate(
-            chk, name, cfg, 60 if quick else 500, 16, seed + i,
+            chk, name, cfg, 60 if quick else 400, 16, seed + i,
             pubs="PubsFlat2", uris="UrisOneEach", deltas="Deltas2",
             max_serial=8, max_session=4, max_faults=3, odds=12)
     vlib.log(f"{len(generated)} generated behaviours at "
@@ -690,7 +748,15 @@ def run(tier, seed):
     for r in ("ok", "crash", "ioerr"):
         if writes.get(r, 0) == 0:
             raise vlib.ToolError(f"no write ended with '{r}'")
-    self_test(chk, trace_c + trace_g)
+    if chk.violations:
+        # violations have been reported: the self-test must not turn the
+        # verdict into a tool error
+        try:
+            self_test(chk, trace_c + trace_g)
+        except vlib.ToolError as e:
+            vlib.log(f"self-test incomplete after violations: {e}")
+    else:
+        self_test(chk, trace_c + trace_g)
     chk.cov["rule"] = (
         "(1) TLC exhaustive on MC_RepoFiles: every interleaving of "
         "publications, updates, resets, rewrites with a crash or I/O error "
@@ -698,7 +764,7 @@ def run(tier, seed):
         "thorough), and a grid of retention configurations; (2) the "
         "model-level counterexamples of the properties the specification "
         "violates (it models the code's quirks) are replayed on the real "
-        "code; (3) fault enumeration: every write of 3 base scenarios is "
+        "code; (3) fault enumeration: every write of 4 base scenarios is "
         "cut at every file system mutation as crash and as error (all cuts "
         "in thorough, a seeded sample of 150 in quick) and the scenario "
         "continues; (4) TLC-simulated behaviours with random faults under "
@@ -716,6 +782,7 @@ def replay(path, seed):
         data = json.load(f)
     rp = data["replay"]
     chk = vlib.Check(PID, LEVEL, "replay", seed)
+    extra_findings(chk)
     run_and_validate(chk, [rp["behaviour"]], "replay",
                      exclude=tuple(rp.get("exclude", [])), revalidate=False)
     return chk.finish()
